@@ -5,9 +5,11 @@ go 1.21
 require (
 	github.com/anishathalye/porcupine v1.3.0
 	github.com/ethereum/go-ethereum v1.10.23
+	github.com/gogo/protobuf v1.3.2
 	github.com/holiman/uint256 v1.2.2
 	github.com/rigochain/rigo-go v0.0.0
 	github.com/tendermint/tendermint v0.34.24
+	golang.org/x/crypto v0.1.0
 	google.golang.org/protobuf v1.28.2-0.20220831092852-f930b1dc76e8
 )
 
@@ -25,7 +27,6 @@ require (
 	github.com/go-kit/log v0.2.1 // indirect
 	github.com/go-logfmt/logfmt v0.5.1 // indirect
 	github.com/go-stack/stack v1.8.0 // indirect
-	github.com/gogo/protobuf v1.3.2 // indirect
 	github.com/golang/protobuf v1.5.2 // indirect
 	github.com/golang/snappy v0.0.4 // indirect
 	github.com/google/btree v1.0.0 // indirect
@@ -54,7 +55,6 @@ require (
 	github.com/tendermint/tm-db v0.6.7 // indirect
 	github.com/tklauser/go-sysconf v0.3.5 // indirect
 	github.com/tklauser/numcpus v0.2.2 // indirect
-	golang.org/x/crypto v0.1.0 // indirect
 	golang.org/x/net v0.1.0 // indirect
 	golang.org/x/sys v0.1.0 // indirect
 	golang.org/x/term v0.1.0 // indirect
